@@ -82,6 +82,8 @@ def truthy_zero(ck, rels, rule='TRUTHY-zero'):
                     tests += node.values
                 if isinstance(node, ast.comprehension):
                     tests += node.ifs
+                # `if (x := d.get(k)):` -- the name that is bound is what the truthiness decides about
+                tests = [ast.copy_location(ast.Name(id=t.target.id, ctx=ast.Load()), t) if isinstance(t, ast.NamedExpr) and isinstance(t.target, ast.Name) else t for t in tests]
                 for t in tests:
                     if _zero_legit(t) and not (isinstance(t, ast.Call) and len(t.args) == 1):
                         hits.append(('truthiness', t))
@@ -1205,6 +1207,42 @@ def rebuilt_atom_identity(ck, rule):
           key=rule + '|rebuilt-atom-identity')
 
 
+def rebuilt_atom_no_coordinates(ck, rule):
+    """repair_graph.repair_residue: an atom that is rebuilt gets no coordinates.  The residue node carries `position` whenever all atoms found for the residue
+    share one (always, when a single atom of the residue is present); a rebuilt atom has no coordinates in the input (F27: it was placed on that atom and
+    averaged into particle positions).  Claimed for C09 only ("constituents without coordinates never contribute")."""
+    from .. import interp
+    rg = ck.index.mod('vermouth/processors/repair_graph.py')
+    fn = rg.func('repair_residue')
+    ck.analysed(rg, fn)
+    adds = [c for c in walk_local(fn) if isinstance(c, ast.Call) and call_attr(c) == 'add_node' and u(c.func.value) == param_names(fn)[0] and
+            any(k.arg is None for k in c.keywords)]
+    block, starts, stmt, var = None, [], None, None
+    if len(adds) == 1:
+        var = next(u(k.value) for k in adds[0].keywords if k.arg is None)
+        stmt = rg.stmt_of(adds[0])
+        for node in ast.walk(fn):
+            for fld in ('body', 'orelse'):
+                sub = getattr(node, fld, None)
+                if isinstance(sub, list) and any(s is stmt for s in sub):
+                    block = sub
+        starts = [i for i, s in enumerate(block or []) if isinstance(s, ast.Assign) and any(isinstance(t, ast.Name) and t.id == var for t in s.targets)]
+    okp, detailp = len(adds) == 1, 'insertion not found'
+    if okp and block is not None and starts:
+        sample = {'chain': 'Q', 'resid': 17, 'resname': 'XYZ', 'position': (0.4, 0.1, 0.0), 'match': {1: 2}, 'found': 'FOUND', 'reference': 'REFERENCE', 'nnodes': 1, 'nedges': 0,
+                  'density': 0.0}
+        env = {param_names(fn)[1]: dict(sample), 'reference.nodes': {5: {'atomname': 'CB', 'element': 'C', 'resname': 'BLOCK'}}, 'ref_idx': 5, 'res_idx': 40, 'match': {}}
+        try:
+            interp.run_stmts(block[starts[0]:block.index(stmt)], env)
+            got = env.get(var)
+            okp = isinstance(got, dict) and 'position' not in got
+            detailp = 'the rebuilt atom has {}'.format(sorted(got) if isinstance(got, dict) else got)
+        except (interp.Unsupported, interp.Returned, KeyError, TypeError) as err:
+            okp, detailp = False, 'could not be interpreted: {}'.format(err)
+    ck.ob(rule, rg.loc(fn), okp, 'a rebuilt atom does not inherit coordinates from its residue (interpreted on a residue node that carries a `position`) -- ' + detailp,
+          key=rule + '|rebuilt-atom-no-coordinates')
+
+
 # ----------------------------------------------------------------------------------------------------------------------
 def _param_key_reads(fn, param):
     """String keys a function reads from its parameter `param` (a mapping): {'k', ...}; None when the parameter is also used in a way that is not a keyed
@@ -1584,3 +1622,30 @@ def no_fused_strings(ck, rels, rule='TAB-fused-strings'):
                   key='{}|{}|{}'.format(rule, rel, text[:40]))
     ck.ob(rule, rels[0] if rels else '-', True, 'tables of string literals with two literals fused by a missing comma in {} module(s): {}'.format(len(rels), n),
           key=rule + '|scan')
+
+
+# nx.get_node_attributes(G, name) returns only the nodes that *have* the attribute, whatever its value (an empty list, 0, None count as having it): it is neither
+# "every node" nor "the nodes where the attribute is set to something".  The three uses of the pinned tree, each read and triaged:
+ATTRIBUTE_VIEW_SITES = {
+    ('vermouth/processors/do_mapping.py', 'apply_block_mapping', 'resname'): 'only the set of values is used, for a log message',
+    ('vermouth/rcsu/go_vs_includes.py', 'VirtualSiteCreator.add_virtual_sites', 'charge_group'): 'maximum over the atoms that have a charge group',
+    ('bin/martinize2', 'entry', '_old_resid'): 'restores the residue number of exactly the atoms that carry an old one',
+}
+
+
+def attribute_view_sites(ck, rels, rule='PROV-attribute-view'):
+    """A selection of nodes "by attribute" through nx.get_node_attributes / get_edge_attributes selects by *presence*: a new use in place of a loop with
+    `.get(..)` changes which nodes are selected (seeds C17_r, C01_w).  New uses are reported; the triaged ones are listed above."""
+    n = 0
+    for rel in rels:
+        module = ck.index.mod(rel)
+        for qual, fn in module.functions.items():
+            for c in walk_local(fn):
+                if isinstance(c, ast.Call) and (call_name(c) or '').split('.')[-1] in ('get_node_attributes', 'get_edge_attributes') and len(c.args) >= 2:
+                    attr = try_fold(c.args[1], default=None)
+                    n += 1
+                    reason = ATTRIBUTE_VIEW_SITES.get((rel, qual, attr))
+                    ck.ob(rule, module.loc(c), reason is not None, '{}: `{}` selects the nodes that *have* the attribute{}'.format(
+                        qual, u(c)[:70], ' -- triaged: ' + reason if reason else ' (also with an empty / zero / None value, and not the others): not a triaged use -- a loop with '
+                        '`.get(..)` that this replaces selected by the value'), key='{}|{}|{}|{}'.format(rule, rel, qual, attr))
+    ck.ob(rule, rels[0] if rels else '-', True, 'selections by attribute presence (nx.get_node_attributes): {} site(s), all triaged'.format(n), key=rule + '|scan|' + ','.join(rels))
